@@ -136,6 +136,12 @@ class NameStr(AbsVal):
     def subscript(self, it, idx):
         if isinstance(idx, slice) and idx.step is None:
             return ("piece", idx.start, idx.stop)
+        if isinstance(idx, int) and not isinstance(idx, bool):
+            # a character the stream has already produced (looking back); the text beyond is not generated yet
+            if 0 <= idx < len(self.run.chars):
+                c = self.run.chars[idx]
+                return c.lower() if self.lowered else c
+            raise Unsupported(f"the name list is indexed at {idx} while {len(self.run.chars)} characters were read (look-ahead / negative index)")
         return NotImplemented
 
 
@@ -184,6 +190,10 @@ class AndRun:
         fr = self.code_frame()
         if fr is None:
             return
+        if len(self.live_frames()) > 1:
+            # the text is being read by a helper / an (eagerly run) generator: the function's own spans are not in step with
+            # the stream; only the final pieces are compared
+            return
         spans = None
         for k, v in fr.env.items():
             if isinstance(v, AList) and v.items and all(isinstance(x, AList) for x in v.items):
@@ -195,25 +205,43 @@ class AndRun:
         if got != want:
             self.fail("split", f"name spans so far {got}, separator rule gives {want}")
 
+    def live_frames(self):
+        """The function's own frame and every frame above it (helpers it called that are reading the text)."""
+        frs = self.it.frames
+        for i in range(len(frs) - 1, -1, -1):
+            if frs[i].fname == self.owner.fi.qualname:
+                return frs[i:]
+        return []
+
     def signature(self):
-        fr = self.code_frame()
         ref = self.ref
         ctrl = self.owner.control_vars
         out = []
-        if fr is not None:
+        live = self.live_frames()
+        if len(live) > 1:
+            self.owner.nonstreaming = True        # the text is read by a helper: its locals are part of the state
+        for depth, fr in enumerate(live):
             for k, v in sorted(fr.env.items()):
                 if isinstance(v, (NameStr, CharStream)) or k in self.owner.ignore_vars:
                     continue
+                if depth:
+                    k = (depth, fr.fname, k)
                 if isinstance(v, bool) or v is None or isinstance(v, str):
                     out.append((k, v))
                 elif isinstance(v, int):
-                    if k in ctrl:
+                    if k in ctrl or depth:
                         out.append((k, v))
                     else:
                         rel = "idx" if v == ref.i else "mark" if v == ref.mark else "start" if v == ref.start else ("d", v - ref.i)
                         out.append((k, rel))
                 elif isinstance(v, AList):
-                    out.append((k, "list"))
+                    if v.items and all(isinstance(x, str) for x in v.items):
+                        # text collected so far (a masked / filtered copy of the input): no finite abstraction is known for
+                        # it, so it is part of the state in full
+                        self.owner.nonstreaming = True
+                        out.append((k, "strs", tuple(v.items)))
+                    else:
+                        out.append((k, "list"))
                 elif isinstance(v, ASet):
                     out.append((k, "set", len(v.items)))
                 else:
@@ -305,7 +333,10 @@ class AndRun:
         opts = self.options()
         if not opts:
             raise Pruned()
-        c = opts[it.ctx.choose(len(opts), "char")]
+        k = it.ctx.choose(len(opts), "char")
+        if k >= len(opts):
+            raise Unsupported("the decision tape is out of step with the character stream (the code's choices differ between runs)")
+        c = opts[k]
         if c == "END":
             self.ended = True
             if args:
@@ -340,6 +371,28 @@ class AndExplorer:
                     if isinstance(x, ast.Name):
                         self.control_vars.add(x.id)
         self.ignore_vars = {"char"}
+        # position variables by role: a counter that only grows (`x += 1`, never decremented), names computed from one, and
+        # lists that collect them
+        grow, shrink = set(), set()
+        for n in own_nodes(self.fi.node):
+            if isinstance(n, ast.AugAssign) and isinstance(n.target, ast.Name):
+                (grow if isinstance(n.op, ast.Add) else shrink).add(n.target.id)
+        pos = grow - shrink
+        for _ in range(3):
+            for n in own_nodes(self.fi.node):
+                if isinstance(n, ast.Assign) and len(n.targets) == 1 and isinstance(n.targets[0], ast.Name) and not isinstance(n.value, ast.Constant):
+                    if any(isinstance(x, ast.Name) and x.id in pos for x in ast.walk(n.value)) and not any(isinstance(x, ast.Call) for x in ast.walk(n.value)):
+                        pos.add(n.targets[0].id)
+                if (isinstance(n, ast.Call) and isinstance(n.func, ast.Attribute) and n.func.attr == "append" and n.args
+                        and any(isinstance(x, ast.Name) and x.id in pos for x in ast.walk(n.args[0]))):
+                    base = n.func.value
+                    while isinstance(base, ast.Subscript):
+                        base = base.value
+                    if isinstance(base, ast.Name):
+                        pos.add(base.id)
+        self.position_vars = pos
+        self.nonstreaming = False     # the code keeps a copy of the text / reads it in a helper: no finite state abstraction
+        self.unbounded = False        # ... and the exploration was cut at its budget (the directed table decides alone)
 
     def run_once(self, ctx: Ctx):
         it = new_interp(self.P, ctx, {}, None)
@@ -352,12 +405,15 @@ class AndExplorer:
             got = [tuple(x[1:]) if isinstance(x, tuple) and x and x[0] == "piece" else ((0, None) if isinstance(x, NameStr) else x)
                    for x in it.iterate(res)] if isinstance(res, (AList, list, tuple)) else res
             if not run.ended:
+                if not run.facts and not run.chars:
+                    raise Unsupported("the function does not read the name list character by character (no iteration over it)")
                 if not run.facts:
                     run.fail("progress", "the function returns before the end of the input")
                 cex = run.continue_reference(got)
                 if cex is not None:
                     run.fail("split", f"result {got} is returned without scanning the text (after asking {run.facts}); for {cex[0]!r} the separator rule gives {cex[1]}")
-                return {"tape": list(ctx.tape), "alts": ctx.alts, "claims": run.claims, "outcome": "completed", "mismatch": None, "input": "".join(run.chars)}
+                return {"tape": list(ctx.tape), "alts": ctx.alts, "claims": run.claims, "outcome": "completed", "mismatch": None, "input": "".join(run.chars),
+                        "nonstreaming": self.nonstreaming}
             want = run.ref.result()
             if got != want:
                 run.fail("split", f"pieces {got}, separator rule gives {want}")
@@ -374,7 +430,7 @@ class AndExplorer:
             self.unsupported.append(str(u))
             outcome = "unsupported"
         return {"tape": list(ctx.tape), "alts": ctx.alts, "claims": run.claims, "outcome": outcome, "mismatch": run.mismatch,
-                "input": "".join(run.chars)}
+                "input": "".join(run.chars), "nonstreaming": self.nonstreaming}
 
     def explore(self, jobs=None, max_paths=300000):
         import multiprocessing as mp
@@ -396,6 +452,9 @@ class AndExplorer:
                     after += 1
                     if after > 2:
                         break
+                if self.nonstreaming and self.paths + len(level) > 6000:
+                    self.unbounded = True
+                    break
                 if self.paths + len(level) > max_paths:
                     raise AnalysisError(f"path explosion in the name-list product (> {max_paths} runs)")
                 snap = dict(self.visited)
@@ -409,6 +468,8 @@ class AndExplorer:
                 nxt = []
                 for r in results:
                     self.paths += 1
+                    if r.get("nonstreaming"):
+                        self.nonstreaming = True
                     cut = None
                     for dg, L in r["claims"]:
                         owner = self.visited.get(dg)
@@ -445,3 +506,96 @@ def _work(arg):
     tapes, snap = arg
     _EX.visited_snapshot = snap
     return [_EX.run_once(Ctx(t)) for t in tapes]
+
+
+# --------------------------------------------------------------------------- directed table (rule C12.R5)
+QUICK_TOKENS = ["{", "}", "\\{", "\\}", "\\", " and ", "x", " "]
+THOROUGH_TOKENS = QUICK_TOKENS + ["\nAND\t", "and", "~", ",", "an", "{and}"]
+
+
+def directed_texts(tier: str) -> List[str]:
+    """Every concatenation of up to N separator-relevant tokens (braces, escaped braces, a lone backslash, the
+    separator, a letter, a blank ...) that does not begin or end with whitespace."""
+    import itertools
+    toks, n = (THOROUGH_TOKENS, 5) if tier == "thorough" else (QUICK_TOKENS, 5)
+    seen = set()
+    out = []
+    for k in range(1, n + 1):
+        for t in itertools.product(toks, repeat=k):
+            s = "".join(t)
+            if s != s.strip(" \r\n\t") or s in seen:
+                continue
+            seen.add(s)
+            out.append(s)
+    return out
+
+
+def reference_pieces(text: str) -> List[str]:
+    ref = RefAnd()
+    for c in text:
+        ref.feed(c)
+    return [text[a:b] for a, b in ref.result()]
+
+
+_DT = None
+
+
+def _dt_work(chunk):
+    P, fi = _DT
+    from .props.common import call_func, driver_interp
+    bad = []
+
+    def f(ctx):
+        it = driver_interp(P, ctx, "middlewares.names")
+        out = []
+        for t in chunk:
+            try:
+                r = call_func(it, fi, t)
+                out.append((t, list(r.items) if isinstance(r, AList) else repr(r)))
+            except Raised as e:
+                out.append((t, f"{e.cls_name()} raised"))
+            except (Unsupported, LoopBound) as e:
+                out.append((t, ("unsupported", str(e))))
+        return out
+    n_paths = 0
+    for ctx, rows in explore(f, 50):
+        n_paths += 1
+        for t, got in rows:
+            if isinstance(got, tuple):
+                return {"unsupported": got[1], "bad": [], "paths": n_paths}
+            want = reference_pieces(t)
+            if got != want:
+                bad.append((t, got, want))
+                if len(bad) >= 20:
+                    return {"unsupported": None, "bad": bad, "paths": n_paths}
+    return {"unsupported": None, "bad": bad, "paths": n_paths}
+
+
+def directed_table(P: Program, tier: str, jobs=None):
+    """Runs the function (abstract interpreter, concrete text) on every directed text and compares the pieces with R-AND."""
+    import multiprocessing as mp
+    import os
+    global _DT
+    fi = P.func("middlewares.names", "split_multiple_persons_names")
+    texts = directed_texts(tier)
+    _DT = (P, fi)
+    jobs = jobs or int(os.environ.get("VERIF_JOBS") or 0) or min(16, os.cpu_count() or 1)
+    size = max(200, len(texts) // (jobs * 4))
+    chunks = [texts[i:i + size] for i in range(0, len(texts), size)]
+    try:
+        pool = None
+        if jobs > 1:
+            try:
+                pool = mp.get_context("fork").Pool(jobs)
+            except (OSError, ValueError):
+                pool = None
+        parts = pool.map(_dt_work, chunks) if pool is not None else [_dt_work(c) for c in chunks]
+    finally:
+        if pool is not None:
+            pool.terminate()
+            pool.join()
+        _DT = None
+    bad = [b for p in parts for b in p["bad"]]
+    uns = next((p["unsupported"] for p in parts if p["unsupported"]), None)
+    bad.sort(key=lambda b: (len(b[0]), b[0]))
+    return {"texts": len(texts), "bad": bad, "unsupported": uns}
